@@ -114,6 +114,8 @@ def run_config(c, cfg):
     mode = 'stochvol' if route in ('volume', 'delayvol') else 'stoch'
     net = RS.Net(sp, mode, cfg['safe'])
     x0v = [float(sp['x0'][s]) for s in sp['species']]
+    from bioscrape.simulator import ArrayDelayQueue
+    template = ArrayDelayQueue.setup_queue(len(sp['reactions']), ncols, qdt)     # every delay run works on a py_copy() of this queue
     states, outcomes = set(), set()
     first = [True]
 
@@ -149,7 +151,7 @@ def run_config(c, cfg):
             nqt = fq.py_get_next_queue_time()
             return dict(rows=impl.rows(res.py_get_result()), consumed=st.consumed, overrun=st.overrun,
                         queue=e1._drain(fq, len(sp['reactions']), ncols), queue_next_time=nqt)
-        return e1.run_delay(impl, us, times, qdt, ncols, dt=qdt)
+        return e1.run_delay(impl, us, times, qdt, ncols, dt=qdt, template=template)
 
     def on_trace(choices, menus, ref):
         got = impl_run(ref['us'])
